@@ -116,8 +116,9 @@ int main(int argc, char **argv) {
             // backward(x_i, T_i, dCost/dT_i) for the COMPLETE duration gradient the workspace reports (seeded change C17-m10: backward applied
             // before the energy term is added); and an optimizer that received this problem by assignment, after serving other durations,
             // hands out toTau of THESE durations (seeded change C17-m9)
+            // (compared within 8 ulp, not bitwise: `backward(x, T, 1) * g` is as correct a use of the backward rule as `backward(x, T, g)`)
             { typename std::decay<decltype(opt)>::type::Workspace wsb; Eigen::VectorXd xb = x, gb; for (int i = 0; i < N; ++i) xb(i) += 0.015625 * (i + 1); opt.setEnergyWeights(0.25); TimeCost tcb; RunCost<1> rcb = RunCost<1>::mode(1); (void)opt.evaluate(xb, gb, tcb, rcb, &wsb);
-              for (int i = 0; i < N; ++i) { const double want = map.backward(xb(i), map.toTime(xb(i)), wsb.grads.times(i)); if (!bits_equal(gb(i), want)) { c.st.violate(unit, fmt("evaluate() with an energy weight: time entry %d of the gradient is %.17g, backward(x_%d, T_%d, dCost/dT_%d = %.17g) = %.17g (durations %s)", i, gb(i), i, i, i, wsb.grads.times(i), want, fmt_vec(T).c_str()), {{"what", "optimizer-backward"}}); return; } }
+              for (int i = 0; i < N; ++i) { const double want = map.backward(xb(i), map.toTime(xb(i)), wsb.grads.times(i)); if (!(std::fabs(gb(i) - want) <= 1.8e-15 * std::fabs(want))) { c.st.violate(unit, fmt("evaluate() with an energy weight: time entry %d of the gradient is %.17g, backward(x_%d, T_%d, dCost/dT_%d = %.17g) = %.17g (durations %s)", i, gb(i), i, i, i, wsb.grads.times(i), want, fmt_vec(T).c_str()), {{"what", "optimizer-backward"}}); return; } }
               opt.setEnergyWeights(0.0);
               typename std::decay<decltype(opt)>::type other; std::vector<double> To = T; for (double &t : To) t = t * 0.5 + 0.25; if (other.setInitState(To, P, 1.0, bc)) (void)other.generateInitialGuess();
               other = opt; Eigen::VectorXd xo = other.generateInitialGuess(); for (int i = 0; i < N; ++i) if (xo.size() != x.size() || !bits_equal(xo(i), map.toTau(T[i]))) { c.st.violate(unit, fmt("an optimizer assigned from this one (after serving other durations): generateInitialGuess() time variable %d is not toTau(%.17g) (durations %s)", i, T[i], fmt_vec(T).c_str()), {{"what", "optimizer-initial-guess"}}); return; } }
